@@ -1,0 +1,27 @@
+//go:build verif
+
+// Contracts for package rpm, checked by /verif/gvc (contract-based deductive
+// verification).  This file is comment-only: with the build tag off it does
+// not exist for the compiler, with it on it adds nothing but a package clause.
+package rpm
+
+//@ import "strings"
+//@ import "github.com/goreleaser/nfpm/v2"
+//
+//@ spec func opt(sep, s string) string {
+//@     if s == "" { return "" }
+//@     return sep + s
+//@ }
+//
+//@ spec func rpmVersion(version, prerelease, metadata string) string {
+//@     return version + opt("~", strings.ReplaceAll(prerelease, "-", "_")) + opt("+", metadata)
+//@ }
+//
+//@ func defaultTo(in, def string) (result string)
+//@   ensures [C02 C14] value: (in == "" && result == def) || (in != "" && result == in)
+//
+//@ func formatVersion(info *nfpm.Info) (result string)
+//@   requires info != nil
+//@   ensures [C02 C14 C15] shape: result == rpmVersion(old(info.Version), old(info.Prerelease), old(info.VersionMetadata))
+//@   ensures [C14] no-hyphen-in-prerelease: implies(old(info.VersionMetadata) == "" && !strings.Contains(old(info.Version), "-"), !strings.Contains(result, "-"))
+//@   modifies [C11 C12]
